@@ -386,7 +386,40 @@ def range_check(case):
     if flags != [6, 9]:
         v.append(("range:end-to-end", "%s (max int %d): voltages read through the reader with its range_volts flag samples %r as saturated; the samples at 98.5 %% of full scale are [6, 9] "
                   "(sample 3 sits at 97.5 %%)" % (kind, maxint_, flags)))
-    return Res(v, o=(kind, mi), tr=2)
+    # the same RELATIVE path under another working directory is another recording (two session folders with the same layout, metadata files of the same
+    # size and modification time, as an archive tool leaves them): the full scale is that of the recording opened
+    import os
+    cwd = os.getcwd()
+    try:
+        gains2 = [(synth.GAINS[(i + 5) % 8], synth.GAINS[(i + 1) % 8]) for i in range(6)]
+        vr2, mi2 = (vr, mi) if fam == "NP1" else ((0.62, 2048) if mi != 2048 else (0.5, 8192))
+        texts = [synth.meta_text(synth.meta_items(kind, sites, 12, gains=g_, vrange=v_, maxint=m_)) for g_, v_, m_ in ((gains, vr, mi), (gains2, vr2, mi2))]
+        size = max(len(t) for t in texts) + 12
+        got = []
+        for name, text in zip(("sessA", "sessB"), texts):
+            dd = os.path.join(d, name)
+            os.makedirs(dd, exist_ok=True)
+            f2 = synth.write_recording(dd, "rng_g0_t0.imec0.ap", data, synth.meta_items(kind, sites, 12))
+            pad = size - len(text) - len("userNotes=\n")
+            with open(f2.replace(".bin", ".meta"), "w") as fh:
+                fh.write(text + "userNotes=" + "x" * pad + "\n")
+            os.utime(f2.replace(".bin", ".meta"), ns=(1_600_000_000_000_000_000, 1_600_000_000_000_000_000))
+        for name in ("sessA", "sessB"):
+            os.chdir(os.path.join(d, name))
+            sr2 = spikeglx.Reader("rng_g0_t0.imec0.ap.bin", sort=False)
+            got.append(np.asarray(sr2.range_volts, dtype=float)[:6])
+            sr2.close()
+        ref2 = synth.ref_s2v(kind, "ap", 6, 1, gains=gains2, vrange=vr2, maxint=mi2)
+        maxint2 = mi2 if mi2 is not None else (synth.KINDS[kind][4] or 512)
+        exp2 = np.array(ref2[:6]) * maxint2
+        if not np.allclose(got[1], exp2, rtol=1e-6, atol=0):
+            v.append(("range_volts:relative-path", "%s: a recording opened through the relative path rng_g0_t0.imec0.ap.bin after another recording was opened through the same relative path from "
+                      "another working directory: range_volts %r, its own metadata give %r (the first recording's: %r)" % (kind, got[1].tolist(), exp2.tolist(), got[0].tolist())))
+    except Exception as e:
+        v.append(("range_volts:relative-path:exc", "%s: %s: %s" % (kind, type(e).__name__, e)))
+    finally:
+        os.chdir(cwd)
+    return Res(v, o=(kind, mi), tr=4)
 
 
 CHECK = {
